@@ -6,7 +6,7 @@
        validator — hence (LR/ValidateProofs.v) the front-end driver is safe,
        sound and complete for the grammar of record, for every token sequence. *)
 From Coq Require Import List Arith Bool Lia.
-From Kiki Require Import Base.Ord Base.Chars Data LR.Driver LR.Grammar LR.Inv LR.Validate LR.ValidateProofs
+From Kiki Require Import Base.Ord Base.Chars Data LR.Driver LR.Grammar LR.Inv LR.Validate LR.Term LR.ValidateProofs
   Front.KikiGrammar Front.Parse.
 From Kiki Require Gen.KikiTables Gen.KikiAnn.
 Import ListNotations.
@@ -48,6 +48,9 @@ Theorem parser_rs_reduce_shapes :
 Proof. vm_compute. reflexivity. Qed.
 
 Theorem kiki_tables_valid : validate kiki_ptable Gen.KikiAnn.kiki_ann Gen.KikiAnn.kiki_ft = true.
+Proof. vm_compute. reflexivity. Qed.
+
+Theorem kiki_tables_terminate : term_check kiki_ptable Gen.KikiAnn.kiki_ann Gen.KikiAnn.kiki_K Gen.KikiAnn.kiki_phi = true.
 Proof. vm_compute. reflexivity. Qed.
 
 Lemma token_kind_bound : forall t, token_kind t < pt_nterm kiki_ptable.
